@@ -101,6 +101,7 @@ def mon_ledger(c):
     allow, sent, ended, reset, want = {}, collections.Counter(), set(), set(), {}
     tag_sid = {}
     granted_all = False
+    killed, flagged = set(), set()
     for (f, cmp_, diag, _) in c.steps:
         op = f[2]
         if op == "new":
@@ -166,8 +167,26 @@ def mon_ledger(c):
                     ended.add(sid)
                 if len(a) > 2 and a[2] == "BAD":
                     v.append(("body-bytes-corrupted", "stream %d" % sid))
-        for (at, text) in c.notes:
-            pass
+        # progress, at every quiescent point (the property's second sentence): an upload whose octets are all out has
+        # its END_STREAM out too (that frame needs no window), and one that still owes octets is held by a window
+        if op == "frame":
+            for (t, fl, s2, p) in parse_frames(f[3]):
+                if t == 3 or (t in (0, 1) and fl & 1) or t == 7:
+                    killed.add(s2 if t != 7 else -1)
+        if op in ("timeout", "close", "cut", "failwrite"):
+            killed.add(-1 if op != "timeout" else tag_sid.get(f[3], -2))
+        quiet = not (cmp_.startswith("stuck") or " dead " in " " + cmp_ + " " or cmp_.startswith("dead") or "ambiguous" in cmp_)
+        if quiet and -1 not in killed and op in ("req", "frame"):
+            for tag, sid in tag_sid.items():
+                if tag not in want or sid in ended or sid in reset or sid in killed or sid in flagged:
+                    continue
+                owed = want[tag] - sent[sid]
+                if owed == 0:
+                    v.append(("end-stream-withheld", "stream %d: all %d octets sent, END_STREAM not (stream allowance %d, connection %d)" % (sid, want[tag], allow[sid], allow_conn)))
+                    flagged.add(sid)
+                elif owed > 0 and allow[sid] > 0 and allow_conn > 0:
+                    v.append(("sendable-left-unsent", "stream %d owes %d octets with stream allowance %d and connection allowance %d" % (sid, owed, allow[sid], allow_conn)))
+                    flagged.add(sid)
     # completion: after the note `uploads-complete` every upload that was neither reset nor abandoned is finished
     done_at = [at for (at, text) in c.notes if text.startswith("uploads-complete")]
     if done_at and not any(s[1].startswith("stuck") or " dead " in " " + s[1] + " " for s in c.steps[:done_at[0]]):
